@@ -29,7 +29,7 @@ var families = map[string][]string{
 	"FuzzNTLMSPNEGO":    {"ntlm.ParseChallengeMessage", "ntlm.ParseTargetInfo", "spnego.ParseNegTokenResp", "spnego.ExtractNTLMToken", "spnego.AuthContext.ProcessChallengeToken"},
 	"FuzzKeyCredential": {"keycredential.KeyCredential.FromBytes", "keycredential.RSAKeyMaterial.FromBytes", "keycredential.CustomKeyInformation.FromBytes", "keycredential.DNWithBinary.Parse", "keycredential.ConvertToBinaryIdentifier"},
 	"FuzzText":          {"guid.FromString", "guid.FromFormatX", "uuid_v1.FromBytes/FromString", "credentials.ParseLMNTHashes", "ip.NewIPv4FromString", "ip.NewIPv6FromString", "ip.NewTCPPortRangeFromString", "ldap.GetDomainFromDistinguishedName", "ldap.ConvertLDAPDurationToSeconds", "gppp.GPPPDecryptBase64"},
-	"FuzzBinaryMisc":    {"ldap.ParseSIDFromBytes", "pkcs7.Unpad", "utf16.DecodeUTF16LE", "gppp.GPPPDecryptBytes", "uuid.UUID.Unmarshal", "guid.GUID.FromRawBytes", "keycredential.ConvertFromBinaryTime"},
+	"FuzzBinaryMisc":    {"ldap.ParseSIDFromBytes", "pkcs7.Unpad", "utf16.DecodeUTF16LE", "gppp.GPPPDecryptBytes", "uuid.UUID.Unmarshal", "guid.GUID.FromRawBytes", "keycredential.ConvertFromBinaryTime", "gppp.GPPPDecryptBytes@plaintext"},
 }
 
 func fuzzFamily(f *testing.F, name string) {
